@@ -329,3 +329,107 @@ pub fn check_updater(w: &mut World, psbt: &Psbt, i: usize, before: &bitcoin::psb
     }
     let _ = KeyForm::Single;
 }
+
+/// I7 for outputs: the fields recorded by `update_output_with_descriptor` are consistent with the
+/// descriptor's output (scripts hash to the scriptPubKey, key origins, taproot internal key and tree).
+pub fn check_output_updater(w: &mut World, psbt: &Psbt, o: usize, di: usize) {
+    let env = w.env.clone();
+    let ic = &env.inputs[di];
+    let out = &psbt.outputs[o];
+    let spk = psbt.unsigned_tx.output[o].script_pubkey.as_bytes().to_vec();
+    let text = &ic.spec.text;
+    match ic.kind {
+        OutKind::Wsh => {
+            if !matches!(&out.witness_script, Some(ws) if spk.len() == 34 && sha256_of(ws.as_bytes())[..] == spk[2..]) {
+                raise(w, "C14", "I7-output", format!("output witness_script does not hash to the scriptPubKey: {}", text), "coord");
+                return;
+            }
+        }
+        OutKind::ShMs | OutKind::ShWpkh => {
+            if !matches!(&out.redeem_script, Some(rs) if spk.len() == 23 && hash160_of(rs.as_bytes())[..] == spk[2..22]) {
+                raise(w, "C14", "I7-output", format!("output redeem_script does not hash to the scriptPubKey: {}", text), "coord");
+                return;
+            }
+        }
+        OutKind::ShWsh => {
+            let ok = match (&out.redeem_script, &out.witness_script) {
+                (Some(rs), Some(ws)) => spk.len() == 23 && hash160_of(rs.as_bytes())[..] == spk[2..22] && rs.len() == 34 && sha256_of(ws.as_bytes())[..] == rs.as_bytes()[2..],
+                _ => false,
+            };
+            if !ok {
+                raise(w, "C14", "I7-output", format!("output sh(wsh) scripts inconsistent with the scriptPubKey: {}", text), "coord");
+                return;
+            }
+        }
+        OutKind::TrKey | OutKind::TrScript => {
+            let tr = match &ic.desc {
+                Descriptor::Tr(t) => t,
+                _ => return,
+            };
+            let (rt, _) = match crate::mon_ref::ref_taproot_of(&env, tr) {
+                Some(x) => x,
+                None => return,
+            };
+            if out.tap_internal_key.map(|k| k.serialize()) != Some(rt.internal) {
+                raise(w, "C14", "I7-output", format!("output tap_internal_key differs from the descriptor's internal key: {}", text), "coord");
+                return;
+            }
+            match (&out.tap_tree, rt.leaves.is_empty()) {
+                (None, true) => {}
+                (Some(tt), false) => {
+                    // rust-bitcoin orders the leaves of a TapTree by node hash, not by position, so only the
+                    // multiset of (depth, script) is the updater's responsibility
+                    let mut got: Vec<(u8, Vec<u8>)> = tt.script_leaves().map(|l| (l.merkle_branch().len() as u8, l.script().as_bytes().to_vec())).collect();
+                    let mut want: Vec<(u8, Vec<u8>)> = rt.leaves.iter().map(|l| (l.depth, l.script.clone())).collect();
+                    got.sort();
+                    want.sort();
+                    // and the tree must commit to the same merkle root
+                    if Some(tt.root_hash().to_byte_array()) != rt.merkle_root {
+                        raise(w, "C14", "I7-output", format!("output tap_tree root differs from the BIP341 reference: {}", text), "coord");
+                        return;
+                    }
+                    if got != want {
+                        raise(w, "C14", "I7-output", format!("output tap_tree (depth, script) list differs from the descriptor's tree: got {:?} want {:?}: {}", got.iter().map(|(d, s)| (*d, crate::keys::hex_of(&s[..s.len().min(8)]))).collect::<Vec<_>>(), want.iter().map(|(d, s)| (*d, crate::keys::hex_of(&s[..s.len().min(8)]))).collect::<Vec<_>>(), text), "coord");
+                        return;
+                    }
+                }
+                _ => {
+                    raise(w, "C14", "I7-output", format!("output tap_tree presence does not match the descriptor: {}", text), "coord");
+                    return;
+                }
+            }
+            let want: BTreeSet<[u8; 32]> = {
+                let mut s = BTreeSet::new();
+                s.insert(rt.internal);
+                for id in &ic.key_ids {
+                    s.insert(env.uni.keys[*id].xonly.serialize());
+                }
+                s
+            };
+            let got: BTreeSet<[u8; 32]> = out.tap_key_origins.keys().map(|k| k.serialize()).collect();
+            if got != want {
+                raise(w, "C14", "I7-output", format!("output tap_key_origins keys differ from the descriptor's keys: {}", text), "coord");
+                return;
+            }
+        }
+        _ => {}
+    }
+    if !matches!(ic.kind, OutKind::TrKey | OutKind::TrScript) {
+        let want: BTreeSet<Vec<u8>> = ic.key_ids.iter().map(|id| env.uni.keys[*id].public.inner.serialize().to_vec()).collect();
+        let got: BTreeSet<Vec<u8>> = out.bip32_derivation.keys().map(|k| k.serialize().to_vec()).collect();
+        if got != want {
+            raise(w, "C14", "I7-output", format!("output bip32_derivation keys differ from the descriptor's keys: {}", text), "coord");
+            return;
+        }
+        for (k, o2) in &out.bip32_derivation {
+            if let Some(id) = ic.key_ids.iter().find(|id| env.uni.keys[**id].public.inner.serialize().to_vec() == k.serialize().to_vec()) {
+                let wo = &env.uni.keys[*id].origin;
+                if !wo.1.is_empty() && o2 != wo {
+                    raise(w, "C14", "I7-output", format!("output bip32_derivation origin differs from the key's origin: {}", text), "coord");
+                    return;
+                }
+            }
+        }
+    }
+    w.stats.probe("i7_output_checked");
+}
